@@ -173,12 +173,6 @@ theorem for_ok (t it : PyExpr) (b o : List PyStmt) (ht : Supported t) (hit : Sup
 
 /-! ### `with` -/
 
-theorem joinToks_cons_ne (sep a : List Tok) (l : List (List Tok)) (h : l ≠ []) :
-    joinToks sep (a :: l) = a ++ sep ++ joinToks sep l := by
-  cases l with
-  | nil => exact absurd rfl h
-  | cons b l => rfl
-
 theorem withItems_loop : ∀ (items : List (PyExpr × Option PyExpr)) (x : PyExpr × Option PyExpr),
     (∀ i ∈ x :: items, Supported i.1 ∧ SupportedO i.2) → ∀ fuel, items.length + 1 ≤ fuel →
       withItemsP fuel (joinToks [tComma] ((x :: items).map withItemToks) ++ [tColon]) = some (x :: items)
@@ -400,7 +394,7 @@ theorem genStmt_head (s : PyStmt) (h : WFS s) (hh : isHandler s = false) (ind : 
   by_cases hs : isSimple s = true
   · obtain ⟨toks, hg, _, t, r, rfl, ht⟩ := simple_ok s h hs ind
     refine ⟨_, [], hg, ?_⟩
-    rcases ht with ht | rfl | rfl | rfl | rfl | rfl | rfl
+    rcases ht with ht | rfl | rfl | rfl | rfl | rfl | rfl | rfl | rfl | rfl
     · cases t with
       | name s' =>
         have e1 := atomStart_not_stmtKw ht cs!"else" (by decide)
@@ -429,10 +423,7 @@ theorem genStmt_head (s : PyStmt) (h : WFS s) (hh : isHandler s = false) (ind : 
       | cons d ds =>
         exact ⟨_, _, by simp only [genStmt, List.map_cons, List.cons_append]; rfl, by simp [notClause, isClauseLine, tAt]⟩
     | handler t n b => simp [isHandler] at hh
-    | delete _ => simp [WFS] at h
     | global_ _ => simp [WFS] at h
-    | import_ _ => simp [WFS] at h
-    | importFrom _ _ _ => simp [WFS] at h
     | unsupported _ => simp [WFS] at h
     | _ => simp [isSimple] at hs
 
@@ -461,7 +452,7 @@ theorem simple_stmt_ok (s : PyStmt) (h : WFS s) (hs : isSimple s = true) : StmtO
     | (rename_i heq
        have := (List.cons.inj heq).1
        subst this
-       rcases ht with ht | ht | ht | ht | ht | ht | ht <;> exact absurd ht (by decide))
+       rcases ht with ht | ht | ht | ht | ht | ht | ht | ht | ht | ht <;> exact absurd ht (by decide))
     | simp [hp]
 
 end Genshi.Py
